@@ -236,7 +236,7 @@ def glue_hazards(c, t, starred_ok=False):
     """all adjacent (end, start) pairs of the template, recursively; returns hazard texts.
     starred_ok: predicate(hole) -> may this child text start with '*'"""
     haz = []
-    t = prune(c, t)
+    t = prune(c, tmplcmp.flatten_joins(t))
     if not callable(starred_ok):
         _v = starred_ok
         starred_ok = lambda h: _v
